@@ -66,6 +66,20 @@ def _elf(data):
         f.interpreter; f.machine; f.flags
     except ELFInvalid: pass
 
+def _elf_file(data):
+    """the same through a real file (what _get_musl_version does): the OS, not BytesIO, answers seek/read at huge offsets"""
+    import tempfile, os
+    fd, name = tempfile.mkstemp(prefix="verif_elf_")
+    try:
+        with os.fdopen(fd, "wb") as t: t.write(data)
+        with open(name, "rb") as f:
+            try:
+                e = ELFFile(f)
+                e.interpreter; e.machine; e.flags
+            except ELFInvalid: pass
+    finally:
+        os.unlink(name)
+
 def _raise_only(exc, f, *a, **kw):
     try: f(*a, **kw)
     except exc: pass
@@ -91,6 +105,7 @@ ENTRIES = {
     "Metadata.from_email.str": lambda s: (_metadata_from_email(s, True), _metadata_from_email(s, False)),
     "Metadata.from_email.bytes": lambda s: (_metadata_from_email(s.encode("latin-1"), True), _metadata_from_email(s.encode("latin-1"), False)),
     "ELFFile": lambda s: _elf(s.encode("latin-1")),
+    "ELFFile.file": lambda s: _elf_file(s.encode("latin-1")),
 }
 
 def observe(cmd, args):
